@@ -696,3 +696,27 @@ Definition clean_profile_ok (kd:kind) (d absd:Z) (K:list iv) (blocks:list iv) (p
   (length prof =? length K)%nat &&
   forallb (fun kv => let c := clean_value kd d absd K blocks polya polyt (fst kv) in
                      Bool.eqb (snd kv =? 1) (c =? 1) && Bool.eqb (snd kv =? -1) (c =? -1)) (combine K prof).
+
+(* ------------------------------------------------------------------ region-aware recount (matcher of the finding C13:split-region-gene-info, not the property):
+   a record whose alignment was processed in several sub-regions of a split cluster carries the gene lists of the GeneInfo objects it was profiled
+   with (alts); only one copy survives, so for a feature whose gene is missing from some of these lists the record may or may not contribute.
+   Records with fewer than two alternatives are counted exactly as in feature_counts_ok. *)
+Definition has_feature (isos:list isoform) (A:list Z) (k:iv) : bool :=
+  existsb (fun i => let '(g, _, feats) := i in existsb (Z.eqb g) A && existsb (iv_eqb k) feats) isos.
+Definition rows_attr_ok (kd:kind) (d:Z) (ann:list (Z * list isoform)) (groups:list Z) (rows:list (frow * Z * Z * Z)) : bool :=
+  let tb := tables kd d ann in
+  forallb (fun r => let '(fr, g, i, e) := r in
+     ((0 <? i) || (0 <? e)) && existsb (Z.eqb g) groups &&
+     existsb (fun t => let '(_, _, props) := t in existsb (fun p => frow_eqb (row_of p) fr) props) tb) rows.
+Definition count_all (vals:list (Z * list Z)) (g v:Z) : Z := Z.of_nat (length (filter (fun x => (fst x =? g) && forallb (Z.eqb v) (snd x)) vals)).
+Definition count_any (vals:list (Z * list Z)) (g v:Z) : Z := Z.of_nat (length (filter (fun x => (fst x =? g) && existsb (Z.eqb v) (snd x)) vals)).
+Definition feature_counts_region_ok (kd:kind) (d absd:Z) (ann:list (Z * list isoform)) (recs:list (record * list (list Z))) (rows:list (frow * Z * Z * Z)) : bool :=
+  let groups := zset (map (fun r => r_grp (fst r)) recs) in
+  forallb (fun ci => let c := fst ci in let isos := kind_isoforms kd (snd ci) in let K := exon_features isos in let props := feature_properties d c isos 0 K in
+     let recs_c := filter (fun r => r_chr (fst r) =? c) recs in
+     forallb (fun p => let k := (fi_start p, fi_end p) in
+        let vals := map (fun ra => let '(_, g', blocks, pa, pt) := fst ra in let v := rec_value kd d absd K blocks pa pt k in
+                                   (g', match snd ra with _ :: _ :: _ => map (fun A => if has_feature isos A k then v else 0) (snd ra) | _ => [v] end)) recs_c in
+        forallb (fun g => let o := obs_sum rows (row_of p) g in
+           (count_all vals g 1 <=? fst o) && (fst o <=? count_any vals g 1) && (count_all vals g (-1) <=? snd o) && (snd o <=? count_any vals g (-1))) groups) props) ann &&
+  rows_attr_ok kd d ann groups rows.
